@@ -144,3 +144,21 @@ package rpcv10
 //@   nosafe
 //@   loop 1: invariant one_entry_per_known_contract: len(contractLeavesData) == len(contracts) && fresh(contractLeavesData) && -1 <= rangeindex && rangeindex < len(contracts) && (forall j int :: 0 <= j && j <= rangeindex && contractLeavesData[j] == nil ==> unknownContract(contracts[j]))
 //@   ensures one_entry_per_known_contract: result1 == nil ==> len(result0) == len(contracts) && (forall j int :: 0 <= j && j < len(contracts) && result0[j] == nil ==> unknownContract(contracts[j]))
+
+// ---- storage proofs are answered in the order of the request (C10) ----------------------------------
+// The client matches contracts_storage_proofs[i] with the i-th contract it asked for. The request is
+// de-duplicated through a map; what is handed on is built by walking the REQUEST (never the map, whose
+// iteration order is random - defect F24, fixed): the k-th entry handed on is a contract of the
+// request, and entries appear in the order of their first occurrence in it.
+//@ extern func github.com/NethermindEth/juno/utils.Set
+//@ extern func github.com/NethermindEth/juno/jsonrpc.Err
+//@   ensures result != nil
+//@ func processStorageKeys
+//@   props C10
+//@   arith int
+//@   nosafe
+//@   coretypes
+//@   modifies *
+//@   loop 2: invariant walks_the_request: -1 <= rangeindex && rangeindex < len(storageKeys) && len(uniqueStorageKeys) <= rangeindex + 1 && fresh(uniqueStorageKeys)
+//@   ensures at_most_one_entry_per_requested_contract: result1 == nil ==> len(result0) <= len(storageKeys)
+//@   ensures an_empty_request_has_no_entries: len(storageKeys) == 0 ==> len(result0) == 0 && result1 == nil
